@@ -218,3 +218,18 @@ MANIFEST_TEXT["C09"] = dict(engine="E-input", design_ref="DESIGN.md §4 C09",
     technique="bounded exhaustive input enumeration on the real code with the extreme-argument set A(.) in every argument position, against reference models, in three build configurations",
     level_text="All structures up to 6/8 bits plus multi-block representatives x every argument position x A(.), including Iterator::nth/nth_back beyond the remainder and the core mapping for any (index, value); decided with overflow checks on (no panic) and off (same answers).",
     level_note="Trusts the reference models; larger structures are represented by 9 instances only.")
+
+PROPS["C10"] = dict(
+    driver="c10", builds=["rel", "dbg"], level="model_checking",
+    rule="E-hist: the complete call tree over {next, nth(0), nth(1), nth(2), nth(MAX)} and, for double-ended iterators, {next_back, nth_back(0|1|2|MAX)} up to depth d; every branch continues on a clone of the iterator (so clone() is exercised at "
+         "every node); after every call the returned item and the exact size hint are compared with a VecDeque reference; once an iterator is exhausted every call is tried once more and must return None. Iterators x starting points: "
+         "BitVector / SparseVector / RLVector iter, one_iter, zero_iter, run_iter, select_iter(r), select_zero_iter(r), predecessor(v), successor(v) for EVERY r and v; multiset sparse vectors; IntVector iter / into_iter; WaveletMatrix iter, into_iter, "
+         "value_iter(v), select_iter(r, v), predecessor(i, v), successor(i, v) for every argument. Parents: every bit sequence of <= N bits as all three types, word-boundary and multi-block run-length parents (a block ending in padding), "
+         "every multiset over universes <= U with <= K values, IntVectors over {0, max} at widths 1/7/64, every vector of the WM scopes. A state is a history (no merging: iterators keep private cursors); all histories are distinct by construction.",
+    bounds={"quick": "depth 6 (positioned iterators 4), N=7, U=K=5, WM scopes (1,6) (2,4) (3,3)", "thorough": "depth 8 (positioned 5), N=8, U=K=6, WM scopes (1,7) (2,5) (3,4): 3.8 x 10^9 transitions per build"},
+    assumptions=[HOOK_ASSUMPTION, MODEL_ASSUMPTION, "parents beyond the stated sizes are not explored; RunIter's offset()/rank() accessors are checked by C03"],
+)
+MANIFEST_TEXT["C10"] = dict(engine="E-hist", design_ref="DESIGN.md §4 C10",
+    technique="exhaustive exploration of iterator call trees (all interleavings of next/next_back/nth/nth_back up to a depth) on the real iterators against a deque reference",
+    level_text="Every call sequence up to depth 6/8 on every iterator kind the library hands out, from every starting point, over all small parents; exact size after every call and None-forever after exhaustion.",
+    level_note="Call sequences longer than the bound and parents larger than the scopes are not explored.")
